@@ -104,8 +104,8 @@ func runPad4E(a []string) string {
 }
 
 func registerPad(r *lib.Run) {
-	r.Register("pad4u", runPad4U)
-	r.Register("pad4e", runPad4E)
+	r.Register("pad4u", rec("pad4u", runPad4U))
+	r.Register("pad4e", rec("pad4e", runPad4E))
 }
 
 func (g *gen) padCase(dl int) {
